@@ -96,7 +96,9 @@ func genPlan(in histIn) *plan {
 		case x < 55:
 			p.Steps = append(p.Steps, step{Kind: "setpw-wrongold-invalidnew", Old: validPassword(rng), New: invalidPassword(rng)})
 		case x < 67:
-			p.Steps = append(p.Steps, step{Kind: "restart"})
+			// N=1: no unlock/verification right after the restart, so the next step meets the wallet with no
+			// password in memory (password checks go through the stored hash)
+			p.Steps = append(p.Steps, step{Kind: "restart", N: rng.Intn(2)})
 		case x < 74:
 			p.Steps = append(p.Steps, step{Kind: "lock"})
 		case x < 79:
@@ -264,6 +266,9 @@ func histChild(inb []byte) (any, error) {
 		switch st.Kind {
 		case "setpw-ok", "setpw-wrongold", "setpw-invalidnew", "setpw-wrongold-invalidnew":
 			lockedBefore := h.e.W.IsWalletLocked()
+			if h.e.W.GetPassword() == "" {
+				out.Counters["setpasswd_with_no_password_in_memory"]++
+			}
 			err := h.e.W.ProcWalletSetPasswd(&types.ReqWalletSetPasswd{OldPass: st.Old, NewPass: st.New})
 			if err == nil {
 				res = "ok"
@@ -330,6 +335,11 @@ func histChild(inb []byte) (any, error) {
 			r = "err"
 		}
 		h.fp = append(h.fp, st.Kind+"="+r)
+		if st.Kind == "restart" && st.N == 1 && si+1 < len(p.Steps) {
+			out.Counters["restarts_without_unlock"]++
+			out.Counters["steps"]++
+			continue
+		}
 		h.verify(fmt.Sprintf("%s", st.Kind))
 		out.Counters["steps"]++
 	}
